@@ -253,7 +253,8 @@ func checkC06(cfg *core.Config) int {
 }
 
 func c06Layout(cfg *core.Config, rep *core.Report, progs []*synth.Program, inGoSrc bool) int {
-	pr := prepareRunner(cfg, rep, progs, []string{"dart"}, []string{"c06dump"}, inGoSrc)
+	// like the command line, Dart is generated LAST on analyses other targets have already used
+	pr := prepareRunner(cfg, rep, progs, []string{"randdata", "ts", "sql", "dart"}, []string{"c06dump"}, inGoSrc)
 	defer pr.pl.Close()
 	layout := "ws"
 	if inGoSrc {
